@@ -23,6 +23,8 @@
 //!                     {"h": "rwr", "eng", "obj", "bind", "script"}   Engine::run_with_reference
 //!                     {"h": "call", "eng", "fn", "kept": k}  call_function_by_name_with_args(fn, [k-th
 //!                        value the script handed to the host function `host-keep!`])
+//!                     {"h": "await-parked"} / {"h": "release"}  a script thread is inside the blocking host
+//!                        method `cell-park` (val "parked" | "not-parked") / the host lets it finish
 //!                     {"h": "poke", "obj"}   the replayer itself touches an object outside any loan
 //!                        (self-test of the late-access sensor: must make the behaviour fail)
 //!   conversion steps  {"h": "extract", "ty", "name"}            Engine::extract::<T>(name)
@@ -45,7 +47,7 @@ use std::hash::Hash;
 use std::io::Write;
 use std::panic::{catch_unwind, AssertUnwindSafe};
 use std::sync::atomic::{AtomicI64, Ordering};
-use std::sync::{Arc, Mutex};
+use std::sync::{Arc, Condvar, Mutex};
 use std::time::{Duration, Instant};
 use steel::gc::unsafe_erased_pointers::CustomReference;
 use steel::rvals::{FromSteelVal, IntoSteelVal};
@@ -61,6 +63,10 @@ use verif_harness::{class_matches, kind_name, new_engine, normalize, run_step, L
 static ACCESS: Mutex<Vec<String>> = Mutex::new(Vec::new());
 static CALLS: Mutex<Vec<Value>> = Mutex::new(Vec::new());
 static KEPT: Mutex<Vec<SteelVal>> = Mutex::new(Vec::new());
+/// (a use is parked inside a host method, the host has released it)
+static PARK: Mutex<(bool, bool)> = Mutex::new((false, false));
+static PARK_CV: Condvar = Condvar::new();
+static CASE_GEN: std::sync::atomic::AtomicU64 = std::sync::atomic::AtomicU64::new(0);
 
 fn record_call(name: &str, args: Vec<Value>) {
     CALLS.lock().unwrap().push(json!({"fn": name, "args": args}));
@@ -114,6 +120,25 @@ impl Cell {
     fn set(&mut self, v: i64) {
         touch(&self.name, &self.scope, "set");
         self.value = v;
+    }
+    /// A use that is still in progress when the host wants its object back: announces itself, waits
+    /// for the host's release, then touches the object once more.
+    fn park(&mut self) -> i64 {
+        let gen = CASE_GEN.load(Ordering::SeqCst);
+        touch(&self.name, &self.scope, "park_begin");
+        let mut st = PARK.lock().unwrap();
+        st.0 = true;
+        PARK_CV.notify_all();
+        let t0 = Instant::now();
+        while !st.1 && t0.elapsed() < Duration::from_millis(20_000) && CASE_GEN.load(Ordering::SeqCst) == gen {
+            st = PARK_CV.wait_timeout(st, Duration::from_millis(20)).unwrap().0;
+        }
+        drop(st);
+        // a thread left over from an earlier behaviour must not write into the log of the current one
+        if CASE_GEN.load(Ordering::SeqCst) == gen {
+            touch(&self.name, &self.scope, "park_end");
+        }
+        self.value
     }
     fn inner_mut(&mut self) -> &mut Inner {
         touch(&self.name, &self.scope, "inner_mut");
@@ -180,6 +205,7 @@ fn register_nursery(e: &mut Engine) {
     e.register_fn("cell-get", Cell::get);
     e.register_fn("cell-get-mut", Cell::get_mut);
     e.register_fn("cell-set!", Cell::set);
+    e.register_fn("cell-park", Cell::park);
     RegisterFn::<_, MarkerWrapper7<(Cell, Inner, Inner, Cell)>, Inner>::register_fn(e, "cell-inner-mut", Cell::inner_mut);
     RegisterFn::<_, MarkerWrapper8<(Cell, Inner, Inner, Cell)>, Inner>::register_fn(e, "cell-inner-ro", Cell::inner_ro);
     e.register_fn("inner-get", Inner::iget);
@@ -410,7 +436,7 @@ struct Interp<'c> {
     gots: Vec<Value>,
     why: String,
     bad: usize,
-    tick: Arc<Mutex<Option<(String, Instant)>>>,
+    tick: Arc<Mutex<Option<(String, Instant, usize)>>>,
     id: String,
 }
 
@@ -435,7 +461,10 @@ impl<'c> Interp<'c> {
 
     /// Compare one observation with the step's expectation and store it.
     fn settle(&mut self, idx: usize, st: &Value, mut got: Value) {
-        let acc: Vec<String> = std::mem::take(&mut *ACCESS.lock().unwrap());
+        // "hold": the accesses of this step are accounted to the next one (a script thread logs
+        // asynchronously: spawn + await-parked and release + join are observed as one)
+        let hold = st.get("hold").and_then(|x| x.as_bool()).unwrap_or(false);
+        let acc: Vec<String> = if hold { Vec::new() } else { std::mem::take(&mut *ACCESS.lock().unwrap()) };
         let calls: Vec<Value> = std::mem::take(&mut *CALLS.lock().unwrap());
         let mut why = None;
         let class = s(&got, "class");
@@ -506,7 +535,7 @@ impl<'c> Interp<'c> {
             let idx = *i;
             let st = self.steps[idx].clone();
             *i += 1;
-            *self.tick.lock().unwrap() = Some((self.id.clone(), Instant::now()));
+            *self.tick.lock().unwrap() = Some((self.id.clone(), Instant::now(), idx));
             let h = s(&st, "h");
             let g = st.get("g").and_then(|x| x.as_i64()).unwrap_or(0);
             match h.as_str() {
@@ -615,6 +644,24 @@ impl<'c> Interp<'c> {
                     self.settle(idx, &st, got);
                     if panicked { return Err("panic".into()); }
                 }
+                "await-parked" => {
+                    // wait (at most 1.5 s) until a script thread is inside Cell::park
+                    let t0 = Instant::now();
+                    let mut pk = PARK.lock().unwrap();
+                    while !pk.0 && t0.elapsed() < Duration::from_millis(1500) {
+                        pk = PARK_CV.wait_timeout(pk, Duration::from_millis(20)).unwrap().0;
+                    }
+                    let v = if pk.0 { "parked" } else { "not-parked" };
+                    drop(pk);
+                    self.settle(idx, &st, json!({"class": "ok", "emit": [], "val": v, "msg": null}));
+                }
+                "release" => {
+                    let mut pk = PARK.lock().unwrap();
+                    pk.1 = true;
+                    PARK_CV.notify_all();
+                    drop(pk);
+                    self.settle(idx, &st, Self::ok_got());
+                }
                 "poke" => {
                     // sensor self-test: the HOST touches an object it has not lent
                     let o = self.obj(&s(&st, "obj"));
@@ -715,17 +762,17 @@ fn main() {
     let out = Arc::new(Mutex::new(
         std::fs::OpenOptions::new().create(true).append(true).open(out_path).expect("out file"),
     ));
-    let current: Arc<Mutex<Option<(String, Instant)>>> = Arc::new(Mutex::new(None));
+    let current: Arc<Mutex<Option<(String, Instant, usize)>>> = Arc::new(Mutex::new(None));
     {
         let current = current.clone();
         let out = out.clone();
         std::thread::spawn(move || loop {
             std::thread::sleep(Duration::from_millis(50));
             let cur = current.lock().unwrap().clone();
-            if let Some((id, t0)) = cur {
+            if let Some((id, t0, step)) = cur {
                 if t0.elapsed() > Duration::from_millis(timeout_ms) {
                     let mut o = out.lock().unwrap();
-                    let _ = writeln!(o, "{}", json!({"timeout": id}));
+                    let _ = writeln!(o, "{}", json!({"timeout": id, "step": step}));
                     let _ = o.flush();
                     std::process::exit(97);
                 }
@@ -751,10 +798,12 @@ fn main() {
             writeln!(o, "{}", json!({"start": id, "n": n})).unwrap();
             o.flush().unwrap();
         }
-        *current.lock().unwrap() = Some((id.clone(), Instant::now()));
+        *current.lock().unwrap() = Some((id.clone(), Instant::now(), 0));
         ACCESS.lock().unwrap().clear();
         CALLS.lock().unwrap().clear();
         KEPT.lock().unwrap().clear();
+        CASE_GEN.fetch_add(1, Ordering::SeqCst);
+        *PARK.lock().unwrap() = (false, false);
         // Every behaviour runs on its own thread: the nursery of lent references is a thread-local of
         // steel-core, so a fresh thread gives every behaviour an empty one (whatever an earlier
         // behaviour left behind).  A panic of the thread is an observation.
